@@ -3,6 +3,9 @@ follows any prefix of a list of file operations.
 
 Storage assumptions (the usual ones for the write-temp / fsync / rename idiom):
 * directory operations (create, rename, unlink) and truncation are atomic and take effect in order;
+* a directory entry names either a file (inode) or a symbolic link to another name; `open` follows
+  symbolic links (at most `linkFuel` of them, then ELOOP) and with O_CREAT creates the name a dangling
+  link chain ends in; `rename` and `unlink` act on the entry itself and never follow a link;
 * data appended to a file is only guaranteed on stable storage up to the last `fsync` of that file;
   after a crash the file holds a prefix of the written data at least as long as the synced part. -/
 namespace Specter.C45
@@ -22,20 +25,51 @@ structure File where
   durable : Nat        -- length of the prefix known to be on stable storage
 deriving DecidableEq, Repr
 
+/-- what a name in the directory tree stands for -/
+inductive Entry where
+  | file (i : Nat)          -- a regular file: the inode
+  | link (to : String)      -- a symbolic link to another name
+deriving DecidableEq, Repr
+
 structure Fs where
-  dir : String → Option Nat     -- name → inode
+  dir : String → Option Entry   -- name → file inode | symbolic link
   file : Nat → File             -- inode → content
   fd : Nat → Option Nat         -- open descriptor → inode
   next : Nat                    -- next unused inode
 
 def upd {α β} [DecidableEq α] (f : α → β) (a : α) (b : β) : α → β := fun x => if x = a then b else f x
 
+/-- Linux follows at most 40 symbolic links in one path resolution (MAXSYMLINKS), then fails with ELOOP -/
+def linkFuel : Nat := 40
+
+/-- Path resolution as `open` does it: follow symbolic links from `p`; `some (q, some i)` = ends at the
+file entry `q` with inode `i`; `some (q, none)` = ends at the absent name `q` (a dangling chain, or `p`
+itself absent); `none` = more than `fuel` links (ELOOP). -/
+def resolve (dir : String → Option Entry) : Nat → String → Option (String × Option Nat)
+  | 0, p =>
+    match dir p with
+    | none => some (p, none)
+    | some (.file i) => some (p, some i)
+    | some (.link _) => none
+  | f + 1, p =>
+    match dir p with
+    | none => some (p, none)
+    | some (.file i) => some (p, some i)
+    | some (.link q) => resolve dir f q
+
+/-- the file a name leads to (through symbolic links), if any -/
+def inodeOf (dir : String → Option Entry) (p : String) : Option Nat :=
+  match resolve dir linkFuel p with
+  | some (_, some i) => some i
+  | _ => none
+
 def step (s : Fs) : FsOp → Fs
   | .openTrunc fd p =>
-    match s.dir p with
-    | some i => { s with file := upd s.file i ⟨[], 0⟩, fd := upd s.fd fd (some i) }
-    | none => { s with dir := upd s.dir p (some s.next), file := upd s.file s.next ⟨[], 0⟩,
-                       fd := upd s.fd fd (some s.next), next := s.next + 1 }
+    match resolve s.dir linkFuel p with
+    | some (_, some i) => { s with file := upd s.file i ⟨[], 0⟩, fd := upd s.fd fd (some i) }
+    | some (q, none) => { s with dir := upd s.dir q (some (.file s.next)), file := upd s.file s.next ⟨[], 0⟩,
+                                 fd := upd s.fd fd (some s.next), next := s.next + 1 }
+    | none => s     -- ELOOP: the open fails
   | .write fd bs =>
     match s.fd fd with
     | some i => { s with file := upd s.file i { s.file i with data := (s.file i).data ++ bs } }
@@ -46,23 +80,23 @@ def step (s : Fs) : FsOp → Fs
     | none => s
   | .close fd => { s with fd := upd s.fd fd none }
   | .rename src dst =>
-    match s.dir src with
-    | some i => { s with dir := upd (upd s.dir src none) dst (some i) }
+    match s.dir src with      -- the entry itself moves (a symbolic link is renamed, not followed)
+    | some e => { s with dir := upd (upd s.dir src none) dst (some e) }
     | none => s
   | .unlink p => { s with dir := upd s.dir p none }
   | .other _ => s
 
 def run (s : Fs) (ops : List FsOp) : Fs := ops.foldl step s
 
-/-- `c` is a possible content of `p` after a crash in state `s`
-(`none` would be "no such file"; only existing files have images). -/
+/-- `c` is a possible content of `p` (read through symbolic links, as the configuration reader opens
+it) after a crash in state `s` (`none` would be "no such file"; only existing files have images). -/
 def IsImage (s : Fs) (p : String) (c : List Nat) : Prop :=
-  ∃ i, s.dir p = some i ∧ ∃ n, (s.file i).durable ≤ n ∧ n ≤ (s.file i).data.length ∧ c = (s.file i).data.take n
+  ∃ i, inodeOf s.dir p = some i ∧ ∃ n, (s.file i).durable ≤ n ∧ n ≤ (s.file i).data.length ∧ c = (s.file i).data.take n
 
 /-- the two extreme images, for the driver: everything written / only what was synced -/
-def imageSync (s : Fs) (p : String) : Option (List Nat) := (s.dir p).map fun i => (s.file i).data
+def imageSync (s : Fs) (p : String) : Option (List Nat) := (inodeOf s.dir p).map fun i => (s.file i).data
 def imageLossy (s : Fs) (p : String) : Option (List Nat) :=
-  (s.dir p).map fun i => (s.file i).data.take (s.file i).durable
+  (inodeOf s.dir p).map fun i => (s.file i).data.take (s.file i).durable
 
 /-- all bytes written by an op list -/
 def pending : List FsOp → List Nat
@@ -101,7 +135,21 @@ def shapeFrom (path : String) : Phase → List FsOp → Bool
 /-- open a temporary name with truncation, write only to it, fsync it, (close,) rename it over `path` -/
 def isAtomicReplace (path : String) (ops : List FsOp) : Bool := shapeFrom path .start ops
 
-/-- the unsafe shape: the config path itself is opened with truncation -/
+/-- The temporary name is private: absent, or a regular file that is not the file the config path
+leads to (no hard link), and not a symbolic link (an `open` through it would write somewhere else —
+possibly the config file itself). State-dependent side condition of the atomic-replace shape. -/
+def privateName (s : Fs) (path tmp : String) : Bool :=
+  match s.dir tmp with
+  | none => true
+  | some (.file i) => inodeOf s.dir path != some i
+  | some (.link _) => false
+
+def tmpPrivate (s : Fs) (path : String) : List FsOp → Bool
+  | .openTrunc _ tmp :: _ => privateName s path tmp
+  | _ => true
+
+/-- the unsafe shape: the config path itself is opened with truncation (when the config path is a
+symbolic link the open follows it and truncates the file it points to) -/
 def isTruncateInPlace (path : String) : List FsOp → Bool
   | .openTrunc _ p :: _ => p = path
   | _ => false
